@@ -189,7 +189,16 @@ def _sub_names(stub):
     return out
 
 
-def cte_event(kind, cte_cache, ops_key, cte, stub, sequence):
+def _bound_columns(columns):
+    """the bound column list of a container: in order when it is ordered, sorted when it is a plain set"""
+    if columns is None:
+        return None
+    if isinstance(columns, (set, frozenset)):
+        return sorted(str(c) for c in columns)
+    return [str(c) for c in columns]
+
+
+def cte_event(kind, cte_cache, ops_key, cte, stub, sequence, columns=None):
     """one event per common table expression emitted or re-used while a statement is put into WITH form"""
     fh = _out()
     if fh is None:
@@ -214,10 +223,12 @@ def cte_event(kind, cte_cache, ops_key, cte, stub, sequence):
             "cache": stmt,
             "key": _short(ops_key),
             "name": str(cte.quoted_query_name),
-            # content of the requested step: its terms, suffix and the names it reads from
+            # content of the requested step: its terms (as a mapping: their order is fixed by the bound column list),
+            # suffix, the names it reads from and the bound column list (in order)
             # (numbers of generated alias / view names are not content: "join_source_left_3" ~ "join_source_left_7")
-            "sig": _short(_re.sub(r"_[0-9]+\b", "_N", str([type(stub).__name__, list((getattr(stub, "terms", None) or {}).items()),
-                                                           getattr(stub, "suffix", None), [x["name"] for x in subs]]))),
+            "sig": _short(_re.sub(r"_[0-9]+\b", "_N", str([type(stub).__name__, sorted((str(k), str(v)) for k, v in (getattr(stub, "terms", None) or {}).items()),
+                                                           getattr(stub, "suffix", None), [x["name"] for x in subs],
+                                                           _bound_columns(columns)]))),
             "refs": [x["name"] for x in subs if x["is_cte"]],
             "defined": [str(k) for k, v in sequence],
         }
